@@ -101,6 +101,26 @@ def mutations(rng, g, hl):
     return out
 
 
+def blank_mutations(g, hl, v):
+    """white space inside the hex section (bytes.fromhex skips ASCII white space between pairs): whole pairs of the MAC
+    and of the key data replaced by blanks - the decoded MAC / key data then have another size than the text suggests"""
+    n = len(g)
+    ml2 = 2 * t.MACLEN[v]
+    bs2 = 2 * t.BS[v]
+    out = []
+    for ws in (" ", "\t", "\n", "\r", "\x0b", "\x0c"):
+        out.append(g[:n - ml2] + ws * ml2)                      # whole MAC
+        for k in (2, 4, ml2 - 2):
+            if 0 < k < ml2:
+                out.append(g[:n - k] + ws * k)                     # MAC tail
+                out.append(g[:n - ml2] + ws * k + g[n - ml2 + k:])  # MAC head
+        out.append(g[:hl] + ws * bs2 + g[hl + bs2:])             # one cipher block of key data
+        out.append(g[:hl] + ws * 2 + g[hl + 2:])                 # one byte of key data
+        out.append(g[:hl] + ws * (n - ml2 - hl) + g[n - ml2:])   # all key data
+    out.append(g[:n - ml2] + " \t" * (ml2 // 2))
+    return out
+
+
 def fix(s):
     return s[0] + "%04d" % len(s) + s[5:] if 5 <= len(s) <= 9999 else s
 
@@ -125,6 +145,9 @@ def run(ctx):
             if not ctx.thorough:
                 muts = rng.sample(muts, min(len(muts), 90))
             muts += unicode_digit_mutations(g, hl, rng, ctx.thorough)
+            blanks = blank_mutations(g, hl, v)
+            for s in blanks:
+                unwrap_items.append((c["kbpk"], s))          # always under the genuine KBPK
             for s in muts:
                 kb = c["kbpk"] if rng.random() < 0.8 else rng.randbytes(rng.randrange(0, 41))
                 unwrap_items.append((kb, s))
